@@ -276,44 +276,7 @@ func runC03(c *Ctx) {
 	}
 
 	// ---- R03.3
-	if c.need("R03.3", "FN_redial", r.FnRedial != nil) && c.needWS("R03.3", "failer", w.Failer) && c.needWS("R03.3", "sinkCloser", w.SinkCloser) {
-		redial := r.FnRedial
-		// spawn sites of the redial goroutine (the closure storing to the socket)
-		var spawns []ssa.Instruction
-		allInstrs(redial, func(in ssa.Instruction) {
-			if g, ok := in.(*ssa.Go); ok {
-				spawns = append(spawns, g)
-			}
-		})
-		if len(spawns) == 0 {
-			c.und("R03.3", fname(redial)+": redial goroutine", p.pos(redial.Pos()), "no goroutine spawn found in the redial function")
-		}
-		for _, cleaner := range []struct {
-			name string
-			fn   *ssa.Function
-		}{{"in-flight failer", w.Failer}, {"sink closer", w.SinkCloser}} {
-			for _, g := range spawns {
-				construct := fmt.Sprintf("%s: %s before redial", fname(redial), cleaner.name)
-				inRedial := mustPrecede(redial, func(in ssa.Instruction) bool { return isCallTo(in, cleaner.fn) }, g)
-				if inRedial {
-					c.ok("R03.3", construct, c.ipos(g), "called on every path to the spawn")
-					continue
-				}
-				// otherwise every call site of the redial function must be preceded by it within its arm
-				okAll := len(p.callers[redial]) > 0
-				for _, s := range p.callers[redial] {
-					fn := s.Parent()
-					if !mustPrecedeSince(fn, c.armStartOf(s), func(in ssa.Instruction) bool { return isCallTo(in, cleaner.fn) }, s) {
-						okAll = false
-						c.bad("R03.3", construct, c.ipos(s), "this loss path reconnects without the "+cleaner.name+" having run: calls in flight / open channels are never failed or closed")
-					}
-				}
-				if okAll {
-					c.ok("R03.3", construct, c.ipos(g), "called before every call of the redial function")
-				}
-			}
-		}
-	}
+	c.cleanupBeforeRedial("R03.3")
 
 	// ---- R03.4
 	if c.needWS("R03.4", "failer", w.Failer) {
@@ -627,3 +590,51 @@ func mustPrecedeSince(fn *ssa.Function, start ssa.Instruction, A ipred, b ssa.In
 
 // mustFollowFrom: every path from a to a return passes B; returns offending return.
 func mustFollowFrom(a ssa.Instruction, B ipred) ssa.Instruction { return reachFrom(a, isReturn, B) }
+
+// cleanupBeforeRedial: on every loss path in-flight calls are failed and sinks
+// closed before the redial goroutine is spawned (inside the redial function, or
+// before each of its call sites).
+func (c *Ctx) cleanupBeforeRedial(rule string) {
+	p, r := c.P, c.R
+	w := c.ws()
+	RULE := rule
+	if c.need(RULE, "FN_redial", r.FnRedial != nil) && c.needWS(RULE, "failer", w.Failer) && c.needWS(RULE, "sinkCloser", w.SinkCloser) {
+		redial := r.FnRedial
+		// spawn sites of the redial goroutine (the closure storing to the socket)
+		var spawns []ssa.Instruction
+		allInstrs(redial, func(in ssa.Instruction) {
+			if g, ok := in.(*ssa.Go); ok {
+				spawns = append(spawns, g)
+			}
+		})
+		if len(spawns) == 0 {
+			c.und(RULE, fname(redial)+": redial goroutine", p.pos(redial.Pos()), "no goroutine spawn found in the redial function")
+		}
+		for _, cleaner := range []struct {
+			name string
+			fn   *ssa.Function
+		}{{"in-flight failer", w.Failer}, {"sink closer", w.SinkCloser}} {
+			for _, g := range spawns {
+				construct := fmt.Sprintf("%s: %s before redial", fname(redial), cleaner.name)
+				inRedial := mustPrecede(redial, func(in ssa.Instruction) bool { return isCallTo(in, cleaner.fn) }, g)
+				if inRedial {
+					c.ok(RULE, construct, c.ipos(g), "called on every path to the spawn")
+					continue
+				}
+				// otherwise every call site of the redial function must be preceded by it within its arm
+				okAll := len(p.callers[redial]) > 0
+				for _, s := range p.callers[redial] {
+					fn := s.Parent()
+					if !mustPrecedeSince(fn, c.armStartOf(s), func(in ssa.Instruction) bool { return isCallTo(in, cleaner.fn) }, s) {
+						okAll = false
+						c.bad(RULE, construct, c.ipos(s), "this loss path reconnects without the "+cleaner.name+" having run: calls in flight / open channels are never failed or closed")
+					}
+				}
+				if okAll {
+					c.ok(RULE, construct, c.ipos(g), "called before every call of the redial function")
+				}
+			}
+		}
+	}
+
+}
